@@ -763,6 +763,8 @@ def if_stmt(cx, s, rest, fallthrough):
     if returns_always(s.body) and (not s.orelse or returns_always(s.orelse)):
         c1 = block(cx.child(), s.body, None)
         c2 = block(cx.child(), s.orelse, None) if s.orelse else block(cx, rest, fallthrough)
+        if t.startswith('(negb ') and t.endswith(')') and balanced(t):
+            t, c1, c2 = t[len('(negb '):-1], c2, c1          # `if not T: A else: B`  is  `if T: B else: A`
         out = f'if {t} then {c1} else {c2}'
     else:
         if cx.mode != 'M':
@@ -844,6 +846,13 @@ def closure(cx, node):
 
 def ret_expr(cx, node):
     w = cx.where
+    if isinstance(node, ast.IfExp):
+        # `return A if T else B`  is  `if T: return A` / `else: return B`
+        syn = ast.If(test=node.test, body=[ast.Return(value=node.body)], orelse=[ast.Return(value=node.orelse)])
+        ast.copy_location(syn, node)
+        for r in (syn.body[0], syn.orelse[0]):
+            ast.copy_location(r, node)
+        return if_stmt(cx, syn, [], None)
     if isinstance(node, ast.Call) and isinstance(node.func, ast.Name) and node.func.id == 'ProofThunk' and len(node.args) == 2:
         conc = pexpr(cx, node.args[1], 'pat')[0]
         body = closure(cx, node.args[0])
